@@ -20,7 +20,7 @@ CHECKS = {
    ref="5/C06"),
  "C12": dict(level="model_checking", engine="xstate",
    technique="explicit-state BFS over queue operations including fill-until-error on small bounded files, with a model-computed space bound at every quiescent state, plus scripted fill/drain cycles",
-   text="On 64-page files: BFS over Write(3 size classes)/Flush/Fill-until-error/Finish/ReadAll/ACK(1|all)/Reopen. Oracle: order and content by the event model throughout; a full file makes Write/Next/Flush return an error without affecting what is delivered; reading and ACK succeed on the full file; data pages held never exceed header + pages of un-ACKed flushed events + pages of the most recent event (computed from the model, so independent of past traffic); after a drain a further event is accepted; 4-6 fill/drain cycles per event size class.",
+   text="On 64-page files: BFS over Write(3 size classes)/Flush/Fill-until-error/Finish/ReadAll/ACK(1|all)/Reopen. Oracle: order and content by the event model throughout; a full file makes Write/Next/Flush return an error without affecting what is delivered; reading and ACK succeed on the full file; data pages held never exceed header + pages of un-ACKed flushed events + pages of the most recent event (computed from the model, so independent of past traffic); after a drain a further event is accepted; 4-6 fill/drain cycles per event size class. Further: a sweep over the number of one-page events flushed, ACKed and reopened (free regions around 255 pages), a seeded search on the full 17-page file after a reopen, and every operation (thorough: pair) from the 1334 harvested queue states of props/qharvest.json.",
    note="Bound per the property statement; the number of events accepted per cycle is recorded, not judged.",
    ref="5/C12"),
  "C13": dict(level="model_checking", engine="sched+vsync",
@@ -40,7 +40,7 @@ CHECKS = {
    ref="5/C02"),
  "C14": dict(level="model_checking",
    technique="explicit-state BFS with open-with-new-max-size as an operation of the alphabet, per-transition oracles and capacity probes",
-   text="ReopenWith(64|96|128|unbounded, prealloc) is part of the BFS alphabet on bounded and unbounded files, so every prior history of the graph meets every (old,new) pair and is followed by further history. Oracle: open succeeds, root and live pages equal the model, lock state idle and Begin/BeginReadonly complete (exact under the scheduler), the limit is applied and reported by FileStats after this and after a later plain open, after growing the capacity equation holds with the new maximum (probe on a twin), after shrinking the simulated file never extends beyond max(previous extent, new limit).",
+   text="ReopenWith(64|96|128|unbounded, prealloc) is part of the BFS alphabet on bounded and unbounded files, so every prior history of the graph meets every (old,new) pair and is followed by further history. Oracle: open succeeds, root and live pages equal the model, lock state idle and Begin/BeginReadonly complete (exact under the scheduler), the limit is applied and reported by FileStats after this and after a later plain open, after growing the capacity equation holds with the new maximum (probe on a twin), after shrinking the simulated file never extends beyond max(previous extent, new limit). Further runs use an alphabet with overflow-enabled transactions on full, grown-and-filled, scattered-free and overflow-using files, with the independent decoder, the memory-vs-disk comparison and an allocation sweep in every state reached through a size change; every size change is also tried from each of the 575 harvested states.",
    note="Depth-bounded histories; sizes from a small set.",
    ref="5/C14"),
  "C15": dict(level="model_checking",
@@ -50,7 +50,7 @@ CHECKS = {
    ref="5/C15"),
  "C08": dict(level="fault_enumeration", engine="simdisk",
    technique="exhaustive fault-plan enumeration (I/O call index x failure kind x burst length x writer timing) over histories selected from an explicit-state BFS, executed on the real implementation under the deadlock-detecting scheduler",
-   text="For one representative history per I/O shape (including open-time resize, rollback after flush, checkpointing commits): every I/O call issued during the history's last transaction, every failure kind applicable to it (error before effect, short write then error, failing sync/truncate/size/mmap/munmap), burst lengths 1-3, with the background writer lazy or eager. Oracle: no panic, no deadlock (exact, by the scheduler), a commit whose I/O failed returns an error, in-process readers keep seeing exactly the last successfully committed model state, after the failures stop a new transaction commits on the same File, and after close/reopen the file shows that state or - only if the header was written and only the final sync failed - the complete state of that commit.",
+   text="For one representative history per I/O shape (including open-time resize, rollback after flush, checkpointing commits): every I/O call issued during the history's last transaction, every failure kind applicable to it (error before effect, short write then error, failing sync/truncate/size/mmap/munmap), burst lengths 1-3, with the background writer lazy or eager. Oracle: no panic, no deadlock (exact, by the scheduler), a commit whose I/O failed returns an error, in-process readers keep seeing exactly the last successfully committed model state, after the failures stop a new transaction commits on the same File, and after close/reopen the file shows that state or - only if the header was written and only the final sync failed - the complete state of that commit. Histories also cover transactions that live in the overflow area of a full file and opens that lower the limit of a file whose free tail touches the file end; after the failures stopped the state of the open File is compared with a fresh open of the disk contents (memory-vs-disk) and every later commit is decoded by the independent decoder. A Commit may succeed under an injected failure only if the first failure came after the header sync (maintenance step after the commit point).",
    note="Faults are injected at the vfs boundary; reads are not failed; failure kinds as listed.",
    ref="5/C08"),
  "C09": dict(level="model_checking", engine="sched+vsync",
@@ -60,7 +60,7 @@ CHECKS = {
    ref="5/C09"),
  "C16": dict(level="fault_enumeration", engine="simdisk",
    technique="exhaustive enumeration of structured header corruptions over committed images from an explicit-state BFS",
-   text="For the cleanly closed image of every distinct logical state reached by a commit or reopen in a BFS: all 672 single-bit flips of each header, three families of byte-prefix tears at every offset, zero/0xFF/0xDB fill, every field replaced by 0/1/max/other slot's value; for every fourth image also both headers damaged (cross product of a reduced set) and crafted valid txid pairs around wrap-around followed by real commits. Oracle: one header damaged: Open succeeds and exposes exactly the model state of the intact header's txid; both damaged: Open returns an error and releases the lock; never a panic.",
+   text="For the cleanly closed image of every distinct logical state reached by a commit or reopen in a BFS: all 672 single-bit flips of each header, three families of byte-prefix tears at every offset, zero/0xFF/0xDB fill, every field replaced by 0/1/max/other slot's value; for every fourth image also both headers damaged (cross product of a reduced set) and crafted valid txid pairs around wrap-around followed by real commits. Oracle: one header damaged: Open succeeds and exposes exactly the model state of the intact header's txid; both damaged: Open returns an error and releases the lock; never a panic. Images are also taken after aborted transactions that flushed pages; for those, with the newest header damaged, only \"Open does not panic, hang or leak the lock\" is demanded (the older state may have been recycled), with the older header damaged the full oracle applies.",
    note="Random multi-byte damage is replaced by complete structured families; FNV-32a collisions of multi-byte damage are out of reach of enumeration.",
    ref="5/C16"),
  "C01": dict(level="fault_enumeration", engine="simdisk",
